@@ -6,6 +6,7 @@ import (
 	"runtime"
 	"strconv"
 	"strings"
+	"time"
 
 	"github.com/b2broker/simplefix-go/session"
 
@@ -72,152 +73,214 @@ func types(outs []rig.Out) string {
 	return "[" + strings.Join(t, ",") + "]"
 }
 
+type cell struct {
+	role   rig.Role
+	logged bool
+	a      int
+	dmg    int
+	pos    int
+	probe  bool // real time: N=1 and 2.3 s of silence first, so that the session's own TestRequest is pending
+}
+
 func main() {
 	c := vk.Init("C16")
-	c.Rule("matrix: admin type {Logon, Logout, Heartbeat, TestRequest, ResendRequest} x damage {wrong checksum, wrong body length, non-numeric body field, non-numeric header field, wrong checksum/length + missing or non-numeric MsgSeqNum, undamaged but not permitted in the state, not permitted in the state and MsgSeqNum missing or non-numeric (correct framing)} x session state {waiting, logged on} x role x position (after 0..3 valid messages) x follow-up valid traffic; tag 35 itself is never damaged. Oracle per offending step: exactly one message emitted and it is a Reject with 45 = the offending 34 (or 371 = 34 when 34 is missing/non-numeric); IsLogged unchanged; context not cancelled and handler still running; the following valid message has its normal effect (TestRequest answered when logged on, good Logon accepted when waiting). distinct = matrix cell x position x seqnum; non-trivial = all")
+	c.Rule("matrix: admin type {Logon, Logout, Heartbeat, TestRequest, ResendRequest} x damage {wrong checksum, wrong body length, non-numeric body field, non-numeric header field, wrong checksum/length + missing or non-numeric MsgSeqNum, undamaged but not permitted in the state, not permitted in the state and MsgSeqNum missing or non-numeric (correct framing)} x session state {waiting, logged on, logged on with the session's own TestRequest pending (real time, N=1; timer Heartbeats/TestRequests are not counted as answers)} x role x position (after 0..3 valid messages) x follow-up valid traffic; tag 35 itself is never damaged. Oracle per offending step: exactly one message emitted and it is a Reject with 45 = the offending 34 (or 371 = 34 when 34 is missing/non-numeric); IsLogged unchanged; context not cancelled and handler still running; the following valid message has its normal effect (TestRequest answered when logged on, good Logon accepted when waiting). distinct = matrix cell x position x seqnum; non-trivial = all")
 	c.Assume("a message whose only defect is a missing sequence number is not in the statement's list; 'state-not-permitted' cells are: Heartbeat/TestRequest/ResendRequest/Logout while waiting, Logon while logged on")
 	reps := c.Pick(10, 120)
-	type cell struct {
-		role   rig.Role
-		logged bool
-		a      int
-		dmg    int
-		pos    int
-	}
 	var cells []cell
 	for _, role := range []rig.Role{rig.Acceptor, rig.Initiator} {
 		for _, logged := range []bool{false, true} {
 			for a := range admins {
 				for d := range damages {
 					for pos := 0; pos < 4; pos++ {
-						cells = append(cells, cell{role, logged, a, d, pos})
+						cells = append(cells, cell{role, logged, a, d, pos, false})
 					}
 				}
 			}
 		}
 	}
-	vk.Parallel(len(cells)*reps, runtime.NumCPU(), func(i int) {
-		ce := cells[i%len(cells)]
-		a := admins[ce.a]
-		dk := damages[ce.dmg]
-		rr := c.Rand("c16", int64(i))
-		if strings.Contains(dk, "state-not-permitted") {
-			permitted := (ce.logged && a.typ != "A") || (!ce.logged && a.typ == "A")
-			if permitted {
-				return
-			}
-		}
-		desc := fmt.Sprintf("%s logged=%v %s damage=%s after %d valid messages", ce.role, ce.logged, a.name, dk, ce.pos)
-		replay := map[string]interface{}{"cell": desc, "index": i, "seed": c.Seed}
-		r, err := rig.NewStepRig(rig.StepCfg{Role: ce.role, HeartBtInt: 30, Limits: &session.IntLimits{Min: 5, Max: 60}, SentinelBarrier: true})
-		if err != nil {
-			c.Inconclusive("rig: " + err.Error())
-			return
-		}
-		defer r.Close()
-		p := rig.NewPeer()
-		p.Seq = rr.Intn(500) // sequence numbers of various widths
-		if ce.logged {
-			res := r.Inbound(p.Logon(30, "0"))
-			if !res.Logged {
-				c.Inconclusive("could not log on: " + desc)
-				return
-			}
-		}
-		for k := 0; k < ce.pos; k++ {
-			var res rig.StepResult
-			if ce.logged {
-				switch rr.Intn(3) {
-				case 0:
-					res = r.Inbound(p.Heartbeat())
-				case 1:
-					res = r.Inbound(p.App("x"))
-				default:
-					res = r.Inbound(p.TestRequest("pre" + strconv.Itoa(k)))
+	vk.Parallel(len(cells)*reps, runtime.NumCPU(), func(i int) { runCell(c, cells[i%len(cells)], i) })
+	// logged on with the session's own TestRequest pending (a state reachable in real time only)
+	var probeCells []cell
+	for _, role := range []rig.Role{rig.Acceptor, rig.Initiator} {
+		for a := range admins {
+			for d, dk := range damages {
+				if !c.Thorough() && !(strings.Contains(dk, "state-not-permitted") || d == 0 || d == 2) {
+					continue
 				}
-			} else {
-				res = r.Inbound(p.App("x"))
-			}
-			if res.TimedOut {
-				c.Inconclusive("watchdog: " + desc)
-				return
+				probeCells = append(probeCells, cell{role, true, a, d, 0, true})
 			}
 		}
-		base := a.build(p)
-		seq := strconv.Itoa(p.Seq)
-		msg, ok, seqUsable := damage(dk, a, base)
-		if !ok {
+	}
+	vk.Parallel(len(probeCells), 32, func(i int) { runCell(c, probeCells[i], 1000000+i) })
+	c.Finish()
+}
+
+func runCell(c *vk.Ctx, ce cell, i int) {
+	a := admins[ce.a]
+	dk := damages[ce.dmg]
+	rr := c.Rand("c16", int64(i))
+	if strings.Contains(dk, "state-not-permitted") {
+		permitted := (ce.logged && a.typ != "A") || (!ce.logged && a.typ == "A")
+		if permitted {
 			return
 		}
-		replay["message"] = fixref.Pretty(msg)
-		before := r.S.IsLogged()
-		res := r.Inbound(msg)
+	}
+	desc := fmt.Sprintf("%s logged=%v %s damage=%s after %d valid messages", ce.role, ce.logged, a.name, dk, ce.pos)
+	hb, lim := 30, &session.IntLimits{Min: 5, Max: 60}
+	if ce.probe {
+		desc += " [own TestRequest pending: N=1, 2.3 s of silence first]"
+		hb, lim = 1, &session.IntLimits{Min: 1, Max: 60}
+	}
+	replay := map[string]interface{}{"cell": desc, "index": i, "seed": c.Seed}
+	r, err := rig.NewStepRig(rig.StepCfg{Role: ce.role, HeartBtInt: hb, Limits: lim, SentinelBarrier: true})
+	if err != nil {
+		c.Inconclusive("rig: " + err.Error())
+		return
+	}
+	defer r.Close()
+	p := rig.NewPeer()
+	p.Seq = rr.Intn(500) // sequence numbers of various widths
+	if ce.logged {
+		res := r.Inbound(p.Logon(hb, "0"))
+		if !res.Logged {
+			c.Inconclusive("could not log on: " + desc)
+			return
+		}
+	}
+	if ce.probe {
+		time.Sleep(2300 * time.Millisecond)
+		own := 0
+		for _, o := range r.AllOuts() {
+			if o.Type == "1" {
+				own++
+			}
+		}
+		if own == 0 {
+			c.Count("probe_cells_without_own_testrequest", 1)
+			return
+		}
+		c.Count("cells_with_own_testrequest_pending", 1)
+	}
+	// in real-time cells the session's timers run: their Heartbeats (no TestReqID) and TestRequests are not answers
+	answers := func(outs []rig.Out) []rig.Out {
+		if !ce.probe {
+			return outs
+		}
+		var keep []rig.Out
+		for _, o := range outs {
+			if o.Type == "1" {
+				continue
+			}
+			if _, has := fixref.Get(o.Fields, rig.TTestReqID); o.Type == "0" && !has {
+				continue
+			}
+			keep = append(keep, o)
+		}
+		return keep
+	}
+	for k := 0; k < ce.pos; k++ {
+		var res rig.StepResult
+		if ce.logged {
+			switch rr.Intn(3) {
+			case 0:
+				res = r.Inbound(p.Heartbeat())
+			case 1:
+				res = r.Inbound(p.App("x"))
+			default:
+				res = r.Inbound(p.TestRequest("pre" + strconv.Itoa(k)))
+			}
+		} else {
+			res = r.Inbound(p.App("x"))
+		}
 		if res.TimedOut {
 			c.Inconclusive("watchdog: " + desc)
 			return
 		}
-		key := func(what string) string {
-			st := "waiting"
-			if ce.logged {
-				st = "logged"
+	}
+	base := a.build(p)
+	seq := strconv.Itoa(p.Seq)
+	msg, ok, seqUsable := damage(dk, a, base)
+	if !ok {
+		return
+	}
+	replay["message"] = fixref.Pretty(msg)
+	before := r.S.IsLogged()
+	if ce.probe {
+		// the session is logged on (it logged on and nothing ended that); IsLogged() itself reports false while the
+		// session's own TestRequest is unanswered, which is not what this property is about
+		before = true
+	}
+	res := r.Inbound(msg)
+	if res.TimedOut {
+		c.Inconclusive("watchdog: " + desc)
+		return
+	}
+	res.Outs = answers(res.Outs)
+	key := func(what string) string {
+		st := "waiting"
+		if ce.logged {
+			st = "logged"
+		}
+		if ce.probe {
+			st = "logged+own-testrequest-pending"
+		}
+		return fmt.Sprintf("C16/%s/%s/%s/%s", what, a.name, dk, st)
+	}
+	c.Eval(vk.Hash64([]byte(desc), []byte(seq)), true)
+	c.SetAdd("matrix_cells", fmt.Sprintf("%s/%v/%s/%s", ce.role, ce.logged, a.name, dk))
+	if res.Panic != "" {
+		c.Violate(key("panic"), desc+": panic in the inbound path: "+vk.Trunc(res.Panic, 600), replay)
+		return
+	}
+	if res.RunEnded || res.CtxErr != nil {
+		c.Violate(key("session-stopped"), fmt.Sprintf("%s: the invalid message stopped the session (handler ended=%v err=%v, context err=%v)", desc, res.RunEnded, res.RunErr, res.CtxErr), replay)
+		return
+	}
+	if len(res.Outs) != 1 || res.Outs[0].Type != "3" {
+		c.Violate(key("not-exactly-one-reject"), fmt.Sprintf("%s: answered with %s, want exactly one Reject", desc, types(res.Outs)), replay)
+	} else {
+		f := res.Outs[0].Fields
+		c.Count("rejects_checked", 1)
+		if seqUsable {
+			if fixref.GetS(f, rig.TRefSeq) != seq {
+				c.Violate(key("reject-wrong-refseqnum"), fmt.Sprintf("%s: Reject has 45=%q, offending message had 34=%s", desc, fixref.GetS(f, rig.TRefSeq), seq), replay)
 			}
-			return fmt.Sprintf("C16/%s/%s/%s/%s", what, a.name, dk, st)
+		} else if fixref.GetS(f, rig.TRefTag) != rig.TSeq {
+			c.Violate(key("reject-does-not-name-seqnum-tag"), fmt.Sprintf("%s: Reject has 371=%q, want 34 because the sequence number is missing or not numeric", desc, fixref.GetS(f, rig.TRefTag)), replay)
 		}
-		c.Eval(vk.Hash64([]byte(desc), []byte(seq)), true)
-		c.SetAdd("matrix_cells", fmt.Sprintf("%s/%v/%s/%s", ce.role, ce.logged, a.name, dk))
-		if res.Panic != "" {
-			c.Violate(key("panic"), desc+": panic in the inbound path: "+vk.Trunc(res.Panic, 600), replay)
-			return
+	}
+	if res.Logged != before {
+		c.Violate(key("logged-state-changed"), fmt.Sprintf("%s: IsLogged %v -> %v", desc, before, res.Logged), replay)
+		return
+	}
+	// valid messages that follow are processed normally
+	if before {
+		fu := r.Inbound(p.TestRequest("after"))
+		fu.Outs = answers(fu.Outs)
+		if len(fu.Outs) != 1 || fu.Outs[0].Type != "0" || fixref.GetS(fu.Outs[0].Fields, rig.TTestReqID) != "after" {
+			c.Violate(key("following-valid-message-not-served"), desc+": a TestRequest after the invalid message was answered with "+types(fu.Outs), replay)
 		}
-		if res.RunEnded || res.CtxErr != nil {
-			c.Violate(key("session-stopped"), fmt.Sprintf("%s: the invalid message stopped the session (handler ended=%v err=%v, context err=%v)", desc, res.RunEnded, res.RunErr, res.CtxErr), replay)
-			return
-		}
-		if len(res.Outs) != 1 || res.Outs[0].Type != "3" {
-			c.Violate(key("not-exactly-one-reject"), fmt.Sprintf("%s: answered with %s, want exactly one Reject", desc, types(res.Outs)), replay)
-		} else {
-			f := res.Outs[0].Fields
-			c.Count("rejects_checked", 1)
-			if seqUsable {
-				if fixref.GetS(f, rig.TRefSeq) != seq {
-					c.Violate(key("reject-wrong-refseqnum"), fmt.Sprintf("%s: Reject has 45=%q, offending message had 34=%s", desc, fixref.GetS(f, rig.TRefSeq), seq), replay)
-				}
-			} else if fixref.GetS(f, rig.TRefTag) != rig.TSeq {
-				c.Violate(key("reject-does-not-name-seqnum-tag"), fmt.Sprintf("%s: Reject has 371=%q, want 34 because the sequence number is missing or not numeric", desc, fixref.GetS(f, rig.TRefTag)), replay)
+	} else if ce.role == rig.Acceptor {
+		fu := r.Inbound(p.Logon(30, "0"))
+		// the Logon reply may be followed by a ResendRequest (the peer's sequence numbers start above 1: gap detection, C10)
+		okOuts := len(fu.Outs) >= 1 && fu.Outs[0].Type == "A"
+		for k, o := range fu.Outs {
+			if k > 0 && o.Type != "2" {
+				okOuts = false
 			}
 		}
-		if res.Logged != before {
-			c.Violate(key("logged-state-changed"), fmt.Sprintf("%s: IsLogged %v -> %v", desc, before, res.Logged), replay)
-			return
+		if !fu.Logged || !okOuts {
+			c.Violate(key("following-valid-message-not-served"), fmt.Sprintf("%s: a valid Logon after the invalid message: logged=%v outputs=%s", desc, fu.Logged, types(fu.Outs)), replay)
 		}
-		// valid messages that follow are processed normally
-		if before {
-			fu := r.Inbound(p.TestRequest("after"))
-			if len(fu.Outs) != 1 || fu.Outs[0].Type != "0" || fixref.GetS(fu.Outs[0].Fields, rig.TTestReqID) != "after" {
-				c.Violate(key("following-valid-message-not-served"), desc+": a TestRequest after the invalid message was answered with "+types(fu.Outs), replay)
-			}
-		} else if ce.role == rig.Acceptor {
-			fu := r.Inbound(p.Logon(30, "0"))
-			// the Logon reply may be followed by a ResendRequest (the peer's sequence numbers start above 1: gap detection, C10)
-			okOuts := len(fu.Outs) >= 1 && fu.Outs[0].Type == "A"
-			for k, o := range fu.Outs {
-				if k > 0 && o.Type != "2" {
-					okOuts = false
-				}
-			}
-			if !fu.Logged || !okOuts {
-				c.Violate(key("following-valid-message-not-served"), fmt.Sprintf("%s: a valid Logon after the invalid message: logged=%v outputs=%s", desc, fu.Logged, types(fu.Outs)), replay)
-			}
-		} else {
-			fu := r.Inbound(p.Logon(30, "0"))
-			if !fu.Logged {
-				c.Violate(key("following-valid-message-not-served"), desc+": the peer's Logon after the invalid message did not log the initiator on", replay)
-			}
+	} else {
+		fu := r.Inbound(p.Logon(30, "0"))
+		if !fu.Logged {
+			c.Violate(key("following-valid-message-not-served"), desc+": the peer's Logon after the invalid message did not log the initiator on", replay)
 		}
-		c.Count("followups_checked", 1)
-		if c.WantSample() && i%97 == 3 {
-			c.Sample(map[string]interface{}{"cell": desc, "message": vk.Trunc(fixref.Pretty(msg), 200), "reject": vk.Trunc(fixref.Pretty(res.Outs[0].Raw), 200)})
-		}
-	})
-	c.Finish()
+	}
+	c.Count("followups_checked", 1)
+	if c.WantSample() && i%97 == 3 {
+		c.Sample(map[string]interface{}{"cell": desc, "message": vk.Trunc(fixref.Pretty(msg), 200), "reject": vk.Trunc(fixref.Pretty(res.Outs[0].Raw), 200)})
+	}
 }
